@@ -51,7 +51,7 @@ def codec_models():
 
 
 # =============================================================================== C06
-def explore_command(ctx, v, seq, name, send=None, wait=None, cancel=False):
+def explore_command(ctx, v, seq, name, send=None, wait=None, cancel=False, stale=()):
     repo = ctx.repo
     f = repo.func(f"{PROTO}:ProtocolHandler.command")
     c = vcls(ctx, v)
@@ -63,7 +63,7 @@ def explore_command(ctx, v, seq, name, send=None, wait=None, cancel=False):
     px = PX(repo, models=models, inline=inline_proto(), cancel=cancel, max_depth=5)
 
     def setup():
-        return self_obj(c, {"_seq": seq, "_awaiting": {}}), {"name": name, "args": (), "kwargs": {}}
+        return self_obj(c, {"_seq": seq, "_awaiting": {k: (0, {}, fut(f"stale{k}")) for k in stale}}), {"name": name, "args": (), "kwargs": {}}
 
     return f, px, px.explore(f, setup)
 
@@ -75,7 +75,7 @@ def header_of(p, want_event=False):
     return None
 
 
-@rule("R06.1", ["C06"], "T-ORD", floor=768)
+@rule("R06.1", ["C06", "C07"], "T-ORD", floor=768)
 def r06_1(ctx):
     """In ProtocolHandler.command, for every sequence value 0..255 and each of the three header layouts: the
     header carries the current sequence number, the pending entry is registered under that same number with the
@@ -128,6 +128,18 @@ def r06_1(ctx):
                 ctx.violation(f"command:{bad.split(',')[0][:40]}", f"{key}: {bad}", func=f, trace=p.trace(40))
             else:
                 ctx.ok(1, key)
+    # entries left behind by commands that timed out do not shift the numbering: the request still goes out and is awaited
+    # under the same number (which then belongs to the new call)
+    for v in (4, 8):
+        for s, stale in ((0, (0,)), (7, (7, 8)), (255, (255, 0)), (100, (101,))):
+            f, px, paths = explore_command(ctx, v, s, "version", stale=stale)
+            for p in paths:
+                hdr = header_of(p)
+                reg = [e for e in p.events if e.kind == "write" and e.what == "self._awaiting[]"]
+                ok = (p.terminal == "return" and hdr is not None and hdr[0] == s and len(reg) == 1 and reg[0].args[0] == s
+                      and p.store["self"].get("_seq") == (s + 1) % 256)
+                ctx.require(ok, f"stale-entries:v{v}:seq={s}", f"v{v}, sequence {s} with timed-out entries {stale} still pending: header carries "
+                            f"{hdr[0] if hdr else None}, registered under {[e.args[0] for e in reg]}, counter -> {p.store['self'].get('_seq')!r}", func=f, trace=p.trace(20))
     ctx.sample({"v8 header for seq 255": "ff0001" + "0000"})
 
 
@@ -263,7 +275,7 @@ def init_handler(ctx, v):
     return paths[0].store["self"]
 
 
-@rule("R06.7", ["C06", "C08"], "T-FUN", floor=60)
+@rule("R06.7", ["C06", "C08", "C19"], "T-FUN", floor=60)
 def r06_7(ctx):
     """Reply / callback demultiplexing in ProtocolHandler.__call__ over {pending, not pending} x {expected frame,
     another known frame with the same or a different response schema, invalidCommand, unknown ID} x {decodes,
@@ -309,6 +321,9 @@ def r06_7(ctx):
                                    else Outcomes(RAISE("ValueError"))),
                                   ("*.set_result", Outcomes(RAISE("InvalidStateError")) if done else Outcomes(OK(None))),
                                   ("*.set_exception", Outcomes(RAISE("InvalidStateError")) if done else Outcomes(OK(None))),
+                                  # a done future here is one whose caller timed out or was cancelled: asking it for its outcome raises
+                                  ("*.exception", Outcomes(RAISE("CancelledError"))), ("*.result", Outcomes(RAISE("CancelledError"))),
+                                  ("*.cancelled", lambda px, t, a, k, fr: done), ("*.done", lambda px, t, a, k, fr: done),
                                   ("binascii.hexlify", lambda px, t, a, k, fr: "hex")]
                         px = PX(repo, models=models, inline=same_class(),
                                 facts={"rest": False, "(5 in keys({5}))": True})
@@ -753,7 +768,7 @@ def _only_read_by_own_update(repo, funcs, attr):
     return True
 
 
-@rule("R06.9", ["C06", "C09"], "T-FUN", floor=2)
+@rule("R06.9", ["C06", "C09", "C07"], "T-FUN", floor=2)
 def r06_9(ctx):
     """EZSP._command resolves the command on the handler that is installed *now*: after the handler object has been
     replaced (version switch, reset) the same command name is sent through the new handler, not through a
